@@ -608,6 +608,13 @@ func (b *builder) build(s *Spec, label string) gen.V {
 		delete(f, "Type")
 		delete(f, "Properties")
 		f["AllOf"] = g.Nodes(g.Node(map[string]gen.V{"Type": g.Types("object")}), absint.Ptr{})
+	case "null-nested-anyOf", "null-nested-allOf":
+		// the null sits one composition further down: anyOf: [{anyOf: [null, {string}]}, {anyOf: [{string}]}]
+		delete(f, "Type")
+		delete(f, "Properties")
+		kw := map[string]string{"null-nested-anyOf": "AnyOf", "null-nested-allOf": "AllOf"}[s.Hostile]
+		strNode := func() gen.V { return g.Node(map[string]gen.V{"Type": g.Types("string")}) }
+		f["AnyOf"] = g.Nodes(g.Node(map[string]gen.V{kw: g.Nodes(absint.Ptr{}, strNode())}), g.Node(map[string]gen.V{kw: g.Nodes(strNode())}))
 	case "empty-enum":
 		f["Enum"] = g.Anys()
 	case "nonprimitive-enum":
